@@ -87,10 +87,10 @@ const (
 	OFFloor
 	OFCeil
 	OFTrunc
-	OUToF    // to_fp_unsigned from BV
-	OSToF    // to_fp from signed BV
-	OFToUBV  // P1 = width, RTZ
-	OFToSBV  // P1 = width, RTZ
+	OUToF   // to_fp_unsigned from BV
+	OSToF   // to_fp from signed BV
+	OFToUBV // P1 = width, RTZ
+	OFToSBV // P1 = width, RTZ
 	OFIsNaN
 	OFIsInf
 	OFBits // BV64 -> FP reinterpret (to_fp from bits)
